@@ -22,7 +22,7 @@ META = {
 
 
 def all_cases(ctx):
-    return F.f_cyc() + F.renamed(F.f_cyc(), "acyc") + F.f_rand_cyc(ctx.seed, 50 if ctx.quick else 500)
+    return F.f_cyc() + F.renamed(F.f_cyc(), "acyc") + F.renamed(F.f_cyc(), "acyc2") + F.f_rand_cyc(ctx.seed, 50 if ctx.quick else 500)
 
 
 def run(ctx):
